@@ -45,40 +45,65 @@ def run(chk):
     if not ok_anchor:
         return chk.finish("anchors missing")
     discr = {v["name"]: v["discr"] for v in adt["variants"]}
+    nw = 0
     # ------------------------------------------------------------------ R-OPT-ARM
-    eb = ExprBuilder(ob)
-    # the rewritten cell: the (ch, attribute) locals of the AttributedChar aggregate handed to Layer::set_char
-    attr_l, ch_l = [], []
-    for bi, t in ob.calls():
+    def shape_switch(body, ebx):
+        for bi in range(body.nblocks):
+            t = body.blocks[bi]["term"]
+            if t["k"] == "switch" and len([x for x in t.get("targets", []) if x[0] in discr.values()]) >= 3:
+                if "discr(" in show(ebx.operand(t["discr"])):
+                    return (bi, t)
+        return None
+    # the body that rewrites one cell: optimize itself, or a helper it calls for every cell
+    wb, eb = ob, ExprBuilder(ob)
+    sw = shape_switch(wb, eb)
+    if sw is None:
+        for _, t in ob.calls():
+            cid = t["callee"].get("resolved") or ""
+            cb_ = f.bodies.get(cid)
+            if cb_ is not None and cb_.kind in ("fn", "method"):
+                e2 = ExprBuilder(cb_)
+                sw2 = shape_switch(cb_, e2)
+                if sw2 is not None:
+                    wb, eb, sw = cb_, e2, sw2
+                    break
+    # the rewritten cell: (a) the (ch, attribute) locals of the AttributedChar aggregate handed to Layer::set_char, or
+    # (b) the AttributedChar the helper returns (its .ch / .attribute fields)
+    attr_l, ch_l, cell_l = [], [], []
+    for bi, t in wb.calls():
         if not (t["callee"].get("resolved") or "").endswith("Layer::set_char") or len(t["args"]) < 3:
             continue
         pj = t["args"][2].get("copy") or t["args"][2].get("move")
         if pj is None or pj.get("p"):
             continue
-        for bj, kj in ob.defs.get(pj["l"], []):
+        for bj, kj in wb.defs.get(pj["l"], []):
             if kj == "term":
                 continue
-            rv = ob.blocks[bj]["stmts"][kj]["rv"]
+            rv = wb.blocks[bj]["stmts"][kj]["rv"]
             if rv["k"] == "agg" and (rv.get("adt") or "").endswith("AttributedChar"):
                 for o in rv["ops"]:
                     e = eb.operand(o)
                     while e[0] in ("ref", "deref"):
                         e = e[1]
                     if e[0] == "var" and isinstance(e[1], int):
-                        ty = ob.tys(e[1])
+                        ty = wb.tys(e[1])
                         if ty == "char" and e[1] not in ch_l:
                             ch_l.append(e[1])
                         elif ty.endswith("TextAttribute") and e[1] not in attr_l:
                             attr_l.append(e[1])
-    sw = None
-    for bi in range(ob.nblocks):
-        t = ob.blocks[bi]["term"]
-        if t["k"] == "switch" and len([x for x in t.get("targets", []) if x[0] in discr.values()]) >= 3:
-            d = show(eb.operand(t["discr"]))
-            if "discr(" in d:
-                sw = (bi, t)
-    if chk.anchor(len(attr_l) == 1 and len(ch_l) == 1 and sw is not None, "R-OPT-ARM", "optimize: locals `attribute`, `ch` and the switch on the glyph shape found"):
-        al, cl = attr_l[0], ch_l[0]
+    if wb is not ob and not attr_l:
+        for bi, k in wb.defs.get(0, []):
+            if k == "term":
+                continue
+            rv = wb.blocks[bi]["stmts"][k]["rv"]
+            pj = (rv["a"].get("move") or rv["a"].get("copy")) if rv["k"] == "use" else None
+            if pj is not None and not pj.get("p") and wb.tys(pj["l"]).endswith("AttributedChar") and pj["l"] not in cell_l:
+                cell_l.append(pj["l"])
+    form_a = len(attr_l) == 1 and len(ch_l) == 1
+    form_b = len(cell_l) == 1 and not attr_l
+    if chk.anchor((form_a or form_b) and sw is not None, "R-OPT-ARM", "optimize: the rewritten cell (`ch` / `attribute`, or the cell a per-cell helper returns) and the switch on the glyph shape found"):
+        al, cl = (attr_l[0], ch_l[0]) if form_a else (None, None)
+        cell = cell_l[0] if form_b else None
         arm = {}
         for val, tgt in sw[1]["targets"]:
             for nm, dv in discr.items():
@@ -86,22 +111,40 @@ def run(chk):
                     arm[nm] = tgt
 
         def in_arm(bi, nm):
-            return arm.get(nm) is not None and (bi == arm[nm] or ob.dominates(arm[nm], bi))
+            return arm.get(nm) is not None and (bi == arm[nm] or wb.dominates(arm[nm], bi))
+
+        def target(s):
+            """'attr' / 'ch' / None: which part of the rewritten cell an assignment writes"""
+            l, proj = s["p"]["l"], s["p"].get("p") or []
+            if form_a and not proj:
+                return "attr" if l == al else "ch" if l == cl else None
+            if form_b and l == cell:
+                names = [el[2] for el in proj if el != "*" and el[0] == "f"]
+                if not proj:
+                    return "cell"
+                return "attr" if names[:1] == ["attribute"] else "ch" if names == ["ch"] else "cell"
+            return None
         nw = 0
         # direct assignments to `attribute` / `ch`
-        for bi, k, s in ob.stmts():
-            if s["k"] != "assign" or s["p"].get("p"):
+        for bi, k, s in wb.stmts():
+            if s["k"] != "assign":
                 continue
-            if s["p"]["l"] == al:
+            tg = target(s)
+            if tg == "cell":
+                nw += 1
+                chk.obligation(False)
+                chk.finding("optimize|cell-assigned", rule="R-OPT-ARM", where="%s:%s" % (wb.file, s["line"]), fn=wb.short(),
+                            what="the rewritten cell is overwritten as a whole (or in a field other than ch / attribute colours)")
+            if tg == "attr":
                 nw += 1
                 v = show(eb.rvalue(s["rv"]))
-                ok = v.endswith(".attribute")          # a copy of the `attribute` field of the cell just read
+                ok = v.endswith(".attribute") and not (s["p"].get("p") and len(s["p"]["p"]) > 1)          # a copy of the `attribute` field of the cell just read
                 chk.obligation(ok)
                 if not ok:
-                    chk.finding("optimize|attribute-assigned|%s" % v[:50], rule="R-OPT-ARM", where="%s:%s" % (ob.file, s["line"]), fn="ColorOptimizer::optimize",
+                    chk.finding("optimize|attribute-assigned|%s" % v[:50], rule="R-OPT-ARM", where="%s:%s" % (wb.file, s["line"]), fn="ColorOptimizer::optimize",
                                 what="the rewritten cell's attribute is assigned `%s`: it may only start as the cell's own attribute and have its foreground (blank glyph) "
                                      "or background (solid glyph) replaced" % v[:80])
-            if s["p"]["l"] == cl:
+            if tg == "ch":
                 nw += 1
                 v = eb.rvalue(s["rv"])
                 if v == ("const", 32):
@@ -111,13 +154,28 @@ def run(chk):
                     ok = txt.endswith(".ch")
                 chk.obligation(ok)
                 if not ok:
-                    chk.finding("optimize|ch-assigned|%s" % show(v)[:40], rule="R-OPT-ARM", where="%s:%s" % (ob.file, s["line"]), fn="ColorOptimizer::optimize",
+                    chk.finding("optimize|ch-assigned|%s" % show(v)[:40], rule="R-OPT-ARM", where="%s:%s" % (wb.file, s["line"]), fn="ColorOptimizer::optimize",
                                 what="the character of the rewritten cell is replaced outside the Whitespace arm (or by something other than a blank)")
+
+        def is_attr_ref(e):
+            x = strip(e)
+            if form_a:
+                return x[:2] == ("var", al)
+            return x[0] == "field" and x[2] == "attribute" and strip(x[1])[:2] == ("var", cell)
+
+        def touches_cell(e):
+            x = strip(e)
+            while x[0] == "field":
+                x = strip(x[1])
+            return form_b and x[:2] == ("var", cell)
         # mutation through `&mut attribute`
-        for bi, t in ob.calls():
+        for bi, t in wb.calls():
             for i, a in enumerate(t["args"]):
                 e = eb.operand(a)
-                if e[0] == "ref" and strip(e)[:2] == ("var", al) and f.types[eb_type(ob, a, f)]["s"].startswith("&mut") if eb_type(ob, a, f) is not None else False:
+                ety = eb_type(wb, a, f)
+                if e[0] != "ref" or ety is None or not f.types[ety]["s"].startswith("&mut"):
+                    continue
+                if is_attr_ref(e):
                     nw += 1
                     callee = t["callee"].get("resolved") or ""
                     if callee.endswith("TextAttribute::set_foreground"):
@@ -131,9 +189,28 @@ def run(chk):
                         want = None
                     chk.obligation(ok)
                     if not ok:
-                        chk.finding("optimize|attribute-mutated|%s" % callee.split("::")[-1], rule="R-OPT-ARM", where="%s:%s" % (ob.file, t["line"]), fn="ColorOptimizer::optimize",
+                        chk.finding("optimize|attribute-mutated|%s" % callee.split("::")[-1], rule="R-OPT-ARM", where="%s:%s" % (wb.file, t["line"]), fn="ColorOptimizer::optimize",
                                     what="`%s` modifies the rewritten cell's attribute %s" % (callee.split("::")[-1], ("outside the %s arm" % want) if want else
                                                                                             "(only set_foreground in the Whitespace arm and set_background in the Block arm may)"))
+                elif touches_cell(e):
+                    nw += 1
+                    chk.obligation(False)
+                    chk.finding("optimize|cell-mutated|%s" % (t["callee"].get("resolved") or "").split("::")[-1], rule="R-OPT-ARM", where="%s:%s" % (wb.file, t["line"]), fn=wb.short(),
+                                what="the rewritten cell is handed out mutably to `%s`" % (t["callee"].get("resolved") or "?").split("::")[-1])
+        if form_b:
+            # the helper is given the cell just read and its result is what is stored, at the same position
+            hc = [(bi, t) for bi, t in ob.calls() if (t["callee"].get("resolved") or "") == wb.id]
+            oeb = ExprBuilder(ob)
+            okh = len(hc) == 1
+            if okh:
+                pi = [i for i in range(1, wb.argc + 1) if i == cell]
+                okh = bool(pi) and "get_char(" in show(oeb.operand(hc[0][1]["args"][pi[0] - 1]))
+                sc = [(bi, t) for bi, t in ob.calls() if (t["callee"].get("resolved") or "").endswith("Layer::set_char")]
+                okh = okh and len(sc) == 1 and show(oeb.operand(sc[0][1]["args"][2])).startswith(wb.id.split("::")[-1] + "(")
+            chk.obligation(okh)
+            if not okh:
+                chk.finding("optimize|helper-wiring", rule="R-OPT-ARM", where="%s:%s" % (ob.file, ob.line), fn="ColorOptimizer::optimize",
+                            what="the per-cell helper is not applied to the cell just read (get_char) with its result stored by set_char")
         chk.floor("R-OPT-ARM", "writes to the rewritten cell's attribute / character", nw, 3)
         # the setters write exactly one field
         for nm, fld in (("set_foreground", "foreground_color"), ("set_background", "background_color")):
@@ -180,13 +257,36 @@ def run(chk):
                 if not any(tgt is not None and (tgt == ret_block or sb.dominates(tgt, ret_block)) for _, tgt in targets):
                     best = (bi, c, "else") if best is None or sb.dominates(best[0], bi) else best
         return best
+    # closures of get_shape that count bits (`.map(|row| row.count_ones())`)
+    bitcount_closures = {cid for cid, cb_ in f.bodies.items() if cb_.kind == "closure" and cb_.parent == SHAPE
+                         and any((t_["callee"].get("resolved") or t_["callee"].get("path") or "").endswith("::count_ones") for _, t_ in cb_.calls())}
+
+    def is_bitcount(e, depth=0):
+        """the number of set pixels of the glyph: a local accumulated from count_ones() of the rows, or the sum of a map of them"""
+        e = strip(e)
+        if depth > 3:
+            return False
+        if e[0] == "var" and isinstance(e[1], int):
+            for bi_, k_ in sb.defs.get(e[1], []):
+                d_ = seb.call_expr(sb.blocks[bi_]["term"]) if k_ == "term" else seb.rvalue(sb.blocks[bi_]["stmts"][k_]["rv"])
+                txt_ = show(d_)
+                if "count_ones(" in txt_ or (d_ != e and d_[0] != "var" and is_bitcount(d_, depth + 1)):
+                    return True
+            return False
+        txt = show(e)
+        if "count_ones(" in txt:
+            return True
+        return "sum(" in txt and "glyph.data" in txt and any(("{closure#%s}" % c.rsplit("#", 1)[-1].rstrip("}")) in txt for c in bitcount_closures)
     nshape = 0
     for rb_, nm in rets.items():
         nm = str(nm)
         gd = guard_of(rb_)
         if "Whitespace" in nm:
             nshape += 1
-            ok = gd is not None and gd[1][0] == "bin" and gd[1][1] == "Eq" and ("const", 0) in (gd[1][2], gd[1][3]) and "ones" in show(gd[1]) and gd[2] in (1, "else")
+            ok = gd is not None and gd[1][0] == "bin" and gd[1][1] == "Eq" and ("const", 0) in (gd[1][2], gd[1][3]) \
+                and any(is_bitcount(x) for x in (gd[1][2], gd[1][3])) and gd[2] in (1, "else")
+            # `match count { 0 => Whitespace, .. }`: the switch is on the count itself
+            ok = ok or (gd is not None and gd[2] == 0 and is_bitcount(gd[1]))
             chk.obligation(ok)
             if not ok:
                 chk.finding("get_shape|whitespace-guard", rule="R-SHAPE", where="%s:%s" % (sb.file, sb.line), fn="get_shape",
@@ -197,7 +297,7 @@ def run(chk):
             if gd is not None and gd[1][0] == "bin" and gd[1][1] == "Eq" and fontp:
                 sides = [gd[1][2], gd[1][3]]
                 prod = [x for x in sides if strip(x)[0] == "bin" and strip(x)[1] in ("Mul", "MulO")]
-                if len(prod) == 1 and any("ones" in show(x) for x in sides if x is not prod[0]):
+                if len(prod) == 1 and any(is_bitcount(x) for x in sides if x is not prod[0]):
                     p = strip(prod[0])
                     fs = sorted(show(strip(p[2])) + "|" + show(strip(p[3])) if False else [show(strip(p[2])), show(strip(p[3]))])
                     fname = sb.lname(fontp[0])
